@@ -51,7 +51,7 @@ CHECK = Check(
     assumptions=[
         "P4: sensing objects and clouds are in base_link",
         "P1: ground truths of a frame sit on distinct grid cells (positions pairwise distinct)",
-        "P3: positive box sizes; computed scale factors are positive (box_scale_* in 0.5..2, |position| <= ~115 m)",
+        "P3: positive box sizes; computed scale factors are positive (box_scale_* in 0.5..2, objects up to ~220 m away; the far end of the scale line is flattened when it would drop below 0.25)",
         "margin rule: a row whose reference margin to a face / polygon edge / z bound is <= 1e-6 m (float32 clouds: "
         "1e-5 * max(1, |coordinate|)) is classified boundary and either answer is accepted",
         "distance for the scale factor: the docs say 'distance from vehicle to target bounding box' — a row whose "
@@ -236,7 +236,7 @@ def prism_cases(draw, tier):
 def frame_cases(draw, tier, manager):
     max_gt = 5 if tier == "quick" else 12
     n_gt = draw(GEN.counts(0, max_gt))
-    S = draw(st.sampled_from([4.0, 8.0, 15.0]))
+    S = draw(st.sampled_from([4.0, 8.0, 15.0, 30.0]))  # 30 m cells: annotated objects beyond the 100 m anchor of the scale line
     rg = 5
     cells = draw(st.lists(st.tuples(st.integers(-rg, rg), st.integers(-rg, rg)), min_size=n_gt, max_size=n_gt, unique=True))
     gt = []
@@ -262,6 +262,11 @@ def frame_cases(draw, tier, manager):
         "s100": draw(sc),
         "thr": draw(st.one_of(st.sampled_from([1, 2, 3, 5, 8]), st.integers(0, 10))),
     }
+    if gt:
+        # (P3) the scale line must stay positive at the farthest annotated object (cells reach beyond the 100 m anchor)
+        far = max(math.sqrt(sum(c * c for c in g["p"])) for g in gt)
+        if cfg["s0"] + 0.01 * (cfg["s100"] - cfg["s0"]) * far < 0.25:
+            cfg["s100"] = cfg["s0"]
     if manager:
         cfg["uuids"] = None
         if gt and draw(st.integers(0, 2)) == 0:
